@@ -503,8 +503,9 @@ func (l *Logger) formatCSV(entry NATLogEntry) string {
 func (l *Logger) formatNEL(entry NATLogEntry) []byte {
 	// NEL is a JSON-based format with specific structure
 	nel := map[string]interface{}{
-		"type": "NAT",
-		"age":  0,
+		"type":      "NAT",
+		"age":       0,
+		"timestamp": entry.Timestamp.Format(time.RFC3339Nano),
 		"body": map[string]interface{}{
 			"event":        entry.EventType,
 			"subscriber":   entry.SubscriberID,
